@@ -94,6 +94,11 @@ CLAIMED = {
    text="4 069 [28 941] nested values (depth <= 3, one spine to 6) over leaf tables (11 ints incl. MIN/MAX, 56 float bit patterns incl. -0.0, subnormals, 1e308, 44 strings incl. quotes, backslashes, NUL+digit, C0/C1 controls, combining marks, non-BMP) must satisfy from_str(debug(v)) == v with equal type tag and, except MIN_INT, exec(parse(debug(v))) == v; 1 252 [3 534] literal forms (decimal, 0b, 0o, 0x, underscores) denote FromDigits' value or are rejected as too big; 2 500 [60 000] random values are validated by TLC.",
    design_ref="§3.5, §6 C20",
    note="digit-level float formatting and the escape alphabet are encode/decode fidelity that TLA+ does not express: the specification fixes structure and leaf table, the oracle for a leaf is the round-trip equation itself"),
+ "C16": dict(
+   technique="TLA+ specification of the lock discipline (spec/Conc.tla: per-assignment steps EvalTarget / EvalValue / ReqWrite / AcqWrite / Update / Release, read guards, rendering, std's reader-waits-behind-queued-writer rule) model-checked by TLC for MutualExclusion, Linearizable, NoLostUpdate, IncrementsPermutation, OutcomeIsSerial, FailureLeavesContent, deadlock freedom and liveness under fairness; program tuples with allowed outcome sets and all serial orders replayed on OS threads (free-running with schedule perturbation, and forced through gates); recorded stress histories validated by Trace_Conc.tla (hook events under the write lock) and Trace_ConcLin.tla (hook-free linearization search)",
+   text="TLC explores 2-3 threads x 1-2 cells x programs over all 12 assignment operators (incl. failing operands), `*c` and rendering (305 915 [4.7 M] states); two named alternative behaviours (nested read guards = the repaired deadlock, split read/write guards = lost updates) must FAIL in the model, so the properties are not vacuous. Every program tuple is run on real threads sharing a Code, a closure and a Function (10 023 [149 210] runs) and its outcome must be in the set the atomic reference allows; every serial order is forced through gates at the lock points (6 226 [99 852]); 68 [680] stress histories (increments, additive, mixed, two cells) are accepted by the trace specification (write chain by sequence number, new = op(old, rhs), each call returns its own write) and by the hook-free linearization search; runs that share no cell equal the sequential result; a watchdog turns a hang into a reported deadlock.",
+   design_ref="§3.7, §6 C16",
+   note="real thread schedules beyond the forced serial orders are sampled, not enumerated; watchdog >= 20 s is the only timing-based judgement; values kept small so TLC's 32-bit integers suffice"),
 }
 
 NOT_YET = {}
